@@ -85,11 +85,14 @@ pub struct SchedCase {
     /// sample size_hint / is_end_stream before every poll (adds consumer critical sections)
     pub sample_hints: bool,
     pub extra_polls: u8,
+    /// the writer is not dropped normally at the end of the program but by the unwinding of a
+    /// panicking producer (`std::thread::panicking()` is true inside its destructor)
+    pub drop_by_unwind: bool,
 }
 
 impl SchedCase {
     pub fn new(chunk: usize, gzip: Option<u32>, prog: Vec<POp>, policy: WakerPolicy) -> SchedCase {
-        SchedCase { chunk, gzip, prog, policy, mode: Mode::Det, prefix: vec![], preempt_bound: u32::MAX, spurious: 2, drop_body_after: None, sample_hints: false, extra_polls: 1 }
+        SchedCase { chunk, gzip, prog, policy, mode: Mode::Det, prefix: vec![], preempt_bound: u32::MAX, spurious: 2, drop_body_after: None, sample_hints: false, extra_polls: 1, drop_by_unwind: false }
     }
     pub fn to_json(&self) -> Value {
         json!({
@@ -99,7 +102,7 @@ impl SchedCase {
             "mode": match &self.mode { Mode::Det => json!("det"), Mode::Random(s) => json!({"random": s}), Mode::Stress(s) => json!({"stress": s}) },
             "prefix": self.prefix.iter().map(|c| char::from(b'0' + *c)).collect::<String>(),
             "preempt_bound": self.preempt_bound, "spurious": self.spurious,
-            "drop_body_after": self.drop_body_after, "sample_hints": self.sample_hints, "extra_polls": self.extra_polls,
+            "drop_body_after": self.drop_body_after, "sample_hints": self.sample_hints, "extra_polls": self.extra_polls, "drop_by_unwind": self.drop_by_unwind,
         })
     }
     pub fn from_json(v: &Value) -> SchedCase {
@@ -125,6 +128,7 @@ impl SchedCase {
             drop_body_after: v["drop_body_after"].as_u64().map(|x| x as u32),
             sample_hints: v["sample_hints"].as_bool().unwrap_or(false),
             extra_polls: v["extra_polls"].as_u64().unwrap_or(1) as u8,
+            drop_by_unwind: v["drop_by_unwind"].as_bool().unwrap_or(false),
         }
     }
     fn stream_case(&self) -> StreamCase {
@@ -546,6 +550,7 @@ fn run_sched_on(case: &SchedCase, pool: &(ActorThread, ActorThread)) -> Option<S
         let prog = case.prog.clone();
         let chunk = case.chunk as u64;
         let gzip = case.gzip.is_some();
+        let drop_by_unwind = case.drop_by_unwind;
         let accepted_bytes = accepted_bytes.clone();
         let op_results = op_results.clone();
         let panic_slot = panic_slot.clone();
@@ -626,7 +631,18 @@ fn run_sched_on(case: &SchedCase, pool: &(ActorThread, ActorThread)) -> Option<S
                     }
                     diagnose(&sched, &body, &format!("after op {} ({:?}) returned", i, op));
                 }
-                drop(w.take());
+                if drop_by_unwind {
+                    // the producer "task" panics while it owns the writer: the destructor runs
+                    // during unwinding (resume_unwind: no panic hook, no message)
+                    if let Some(ww) = w.take() {
+                        let _ = std::panic::catch_unwind(std::panic::AssertUnwindSafe(move || {
+                            let _owned = ww;
+                            std::panic::resume_unwind(Box::new("producer task panicked (harness)"));
+                        }));
+                    }
+                } else {
+                    drop(w.take());
+                }
                 {
                     let mut g = sched.lock();
                     g.prod_done = true;
